@@ -66,6 +66,26 @@ macro_rules! verify_bps {
 }
 pub(crate) use verify_bps;
 
+/// Verifies the bits-per-sample of a stream (where the 4n + 1 variant for a
+/// side-channel is not applicable).
+macro_rules! verify_stream_bps {
+    ($varname:literal, $bps:expr) => {
+        verify_range!(
+            $varname,
+            $bps,
+            (crate::constant::MIN_BITS_PER_SAMPLE)..=(crate::constant::MAX_BITS_PER_SAMPLE)
+        )
+        .and_then(|()| {
+            verify_true!(
+                $varname,
+                ($bps as usize) % 4 == 0,
+                "must be a multiple of 4"
+            )
+        })
+    };
+}
+pub(crate) use verify_stream_bps;
+
 macro_rules! verify_sample_range {
     ($varname:literal, $sample:expr, $bps:expr) => {{
         let min_sample = -((1usize << ($bps as usize - 1)) as i32);
@@ -143,7 +163,7 @@ impl Verify for StreamInfo {
         }
         verify_range!("sample_rate", self.sample_rate(), ..=96_000)?;
         verify_range!("channels", self.channels(), 1..=8)?;
-        verify_bps!("bits_per_sample", self.bits_per_sample())
+        verify_stream_bps!("bits_per_sample", self.bits_per_sample())
     }
 }
 
